@@ -36,7 +36,7 @@ COMPONENTS = {
 }
 PROBES = ["card skipped by sampler (all its contests finished)", "card listing no contest", "phantom sampled",
           "contest with n_c=0", "contest taking every card", "records returned out of order",
-          "two contests share threshold card", "continued call added cards"]
+          "two contests share threshold card", "continued call added cards", "sample numbers equal as floats"]
 
 
 class SchedPrng:
@@ -91,9 +91,13 @@ def generate(rng, tier):
     if mode == "sha256":
         numbering = {"mode": mode, "seed": rng.pick([rng.getrandbits(64), rng.randint(0, 9), 12345678901234567890])}
     else:
-        kind = rng.pick(["perm", "big", "sparse"])
+        kind = rng.pick(["perm", "big", "sparse", "near"])
         if kind == "perm":
             nums = rng.perm(ncards)
+        elif kind == "near":
+            # distinct huge integers that agree in their leading bits (floats cannot tell them apart)
+            base = rng.getrandbits(rng.pick([80, 200, 255])) | (1 << 79)
+            nums = [base + k for k in rng.perm(ncards)]
         elif kind == "big":
             s = set()
             while len(s) < ncards:
@@ -124,7 +128,10 @@ def generate(rng, tier):
                 cur[cid] = min(avail, cur[cid] + rng.randint(0, max(1, avail // 2)))
         nxt.append(cur)
     return {"contests": contests, "cards": cards, "alt": alt, "numbering": numbering, "sizes": sizes, "sizes_next": nxt,
-            "pipeline": rng.chance(0.35), "return_order": rng.perm(ncards), "mvr_from_alt": rng.chance(0.5)}
+            "pipeline": rng.chance(0.35), "return_order": rng.perm(ncards), "mvr_from_alt": rng.chance(0.5),
+            # auditors' faults on the manual records: card not found (phantom record), record lacks a contest
+            "mvr_phantom": [i for i in range(ncards) if rng.chance(0.1)],
+            "mvr_drop": {str(i): rng.pick(cids) for i in range(ncards) if rng.chance(0.12)}}
 
 
 # --------------------------------------------------------------------------- reference model
@@ -164,6 +171,11 @@ def execute(case):
     assign(ns, cvrs, case["numbering"])
     nums = [c.sample_num for c in cvrs]
     out.ev("numbers", [str(n) for n in nums])
+    try:
+        if len({float(n) for n in nums}) < len(set(nums)):
+            out.probe("sample numbers equal as floats")
+    except OverflowError:
+        pass
     out.shape(f"mode={case['numbering']['mode']} ncon={len(contests)} pipe={case['pipeline']}")
     if len(set(nums)) != len(nums):
         out.probe("sample numbers collide")
@@ -314,7 +326,15 @@ def execute(case):
         mvr_specs = []
         for i in idx:
             src = case["alt"][i] if case["mvr_from_alt"] else cards[i]
-            mvr_specs.append({"id": cards[i]["id"], "votes": src["votes"], "phantom": False})
+            votes = copy.deepcopy(src["votes"])
+            ph = i in case.get("mvr_phantom", []) or bool(cards[i].get("phantom"))
+            if ph:
+                votes = {}
+                out.fault("F1 card cannot be found")
+            elif str(i) in case.get("mvr_drop", {}) and case["mvr_drop"][str(i)] in votes:
+                del votes[case["mvr_drop"][str(i)]]
+                out.fault("F4 manual record lacks contest")
+            mvr_specs.append({"id": cards[i]["id"], "votes": votes, "phantom": ph})
         mvrs = W.mk_cvrs(ns, mvr_specs)
         cvr_sample = [cvrs[i] for i in idx]
         mvr_of = {m.id: m for m in mvrs}
@@ -387,6 +407,8 @@ def reducers(case):
         if "numbers" in c["numbering"]:
             del c["numbering"]["numbers"][i]
         c["return_order"] = [j for j in c["return_order"] if j < n - 1]
+        c["mvr_phantom"] = [j - (j > i) for j in c.get("mvr_phantom", []) if j != i]
+        c["mvr_drop"] = {str(int(j) - (int(j) > i)): v for j, v in c.get("mvr_drop", {}).items() if int(j) != i}
         yield _clamp(c)
     for j in reversed(range(len(case.get("sizes_next", [])))):
         c = copy.deepcopy(case)
@@ -426,6 +448,14 @@ def reducers(case):
             c = copy.deepcopy(case)
             c["numbering"]["numbers"] = [ranks[v] for v in nums]
             yield c
+    if case.get("mvr_phantom"):
+        c = copy.deepcopy(case)
+        c["mvr_phantom"] = []
+        yield c
+    if case.get("mvr_drop"):
+        c = copy.deepcopy(case)
+        c["mvr_drop"] = {}
+        yield c
     for flag in ("pipeline", "mvr_from_alt"):
         if case[flag]:
             c = copy.deepcopy(case)
